@@ -20,9 +20,19 @@ func Dump(v any) string {
 	return sb.String()
 }
 
+// DumpValue is Dump without the spare capacity of slices: the logical value
+// only (used to compare two different objects that should hold equal values).
+func DumpValue(v any) string {
+	var sb strings.Builder
+	d := dumper{sb: &sb, seen: map[uintptr]bool{}, noCap: true}
+	d.dump(reflect.ValueOf(v), 0)
+	return sb.String()
+}
+
 type dumper struct {
-	sb   *strings.Builder
-	seen map[uintptr]bool
+	sb    *strings.Builder
+	seen  map[uintptr]bool
+	noCap bool
 }
 
 func (d *dumper) dump(v reflect.Value, depth int) {
@@ -84,13 +94,21 @@ func (d *dumper) dump(v reflect.Value, depth int) {
 		}
 		if v.Type().Elem().Kind() == reflect.Uint8 {
 			full := v.Slice3(0, v.Cap(), v.Cap())
+			if d.noCap {
+				full = v
+			}
 			b := make([]byte, full.Len())
 			reflect.Copy(reflect.ValueOf(b), full)
 			fmt.Fprintf(d.sb, "%s{%x|%x}", v.Type(), b[:v.Len()], b[v.Len():])
 			return
 		}
-		fmt.Fprintf(d.sb, "%s[len=%d cap=%d]{", v.Type(), v.Len(), v.Cap())
 		full := v.Slice3(0, v.Cap(), v.Cap())
+		if d.noCap {
+			full = v
+			fmt.Fprintf(d.sb, "%s[len=%d]{", v.Type(), v.Len())
+		} else {
+			fmt.Fprintf(d.sb, "%s[len=%d cap=%d]{", v.Type(), v.Len(), v.Cap())
+		}
 		for i := 0; i < full.Len(); i++ {
 			if i == v.Len() {
 				d.sb.WriteString(" | ")
@@ -119,9 +137,9 @@ func (d *dumper) dump(v reflect.Value, depth int) {
 		it := v.MapRange()
 		for it.Next() {
 			var ks, vs strings.Builder
-			kd := dumper{sb: &ks, seen: d.seen}
+			kd := dumper{sb: &ks, seen: d.seen, noCap: d.noCap}
 			kd.dump(copyAddr(it.Key()), depth+1)
-			vd := dumper{sb: &vs, seen: d.seen}
+			vd := dumper{sb: &vs, seen: d.seen, noCap: d.noCap}
 			vd.dump(copyAddr(it.Value()), depth+1)
 			ents = append(ents, ent{ks.String(), vs.String()})
 		}
